@@ -94,6 +94,9 @@ class Check:
                     prev_raw = raw
             if len(self.samples) < 3 and (len(tr) > 2 or tr[-1]["op"] not in ("new", "observe")):
                 self.samples.append([_sample_line(x) for x in tr[:12]])
+            for br in v.get("branches", ()):
+                k = "%s/%s" % (br[0], br[1])
+                self.branch_hits[k] = self.branch_hits.get(k, 0) + 1
             for (lno, clause, status) in v["fails"]:
                 if not clause.startswith(self.prefixes):
                     continue
@@ -161,6 +164,7 @@ class Check:
             "model_checking": self.mc,
             "known_findings_hit": {k: {"instances": n, "what": self.kf[k]["what"]} for k, n in sorted(self.kf_hits.items())},
             "failing_clauses": self.clause_fail_counts,
+            "add_interaction_branches_on_real_code": dict(sorted(self.branch_hits.items())),
         }
         if explanation:
             cov["explanation"] = explanation
